@@ -39,12 +39,16 @@ CAST = {
 }
 
 
-def actor_json(a):
+def actor_json(a, alias=False):
     c = CAST[a]
     out = {"a": a, "kind": c["kind"], "linked": c["linked"]}
     for k in ("input", "command", "cancel"):
         if k in c:
             out[k] = c[k]
+    if alias and a == 2:
+        # the same shell command under the registry's other name for the tool (rip-tools registers `shell` as an alias of
+        # `bash`, and the provider tool list offers it): which executions mutate is a fact about what runs, not about the name
+        out["input"] = json.dumps({"tool": "shell", "args": {"command": "sleep 0.02"}})
     return out
 
 
@@ -228,14 +232,15 @@ def run(tier, seed):
         seen.add(key)
         for label, hold in hold_of(gc):
             cid = f"h{gc['holder']}.{gc['ip']}.{label}"
-            cases.append({"id": cid, "mode": "hold", "holder": gc["holder"], "hold": hold, "quiesce_ms": 300,
-                          "actors": [actor_json(a) for a in sorted(CAST)], "_model": gc, "_label": label})
+            alias = gc["holder"] != 2 and len(cases) % 2 == 1
+            cases.append({"id": cid + (".alias" if alias else ""), "mode": "hold", "holder": gc["holder"], "hold": hold, "quiesce_ms": 300,
+                          "actors": [actor_json(a, alias) for a in sorted(CAST)], "_model": gc, "_label": label})
     nj = 40 if thorough else 8
     for k in range(nj):
         s = seed * 1000 + k
         subset = sorted(CAST) if k % 2 == 0 else [a for a in sorted(CAST) if (s >> a) & 1 or a in (1, 3)]
         cases.append({"id": f"j{k}", "mode": "jitter", "seed": s + 1, "jitter_us": 2000 + 1500 * (k % 3),
-                      "actors": [actor_json(a) for a in subset]})
+                      "actors": [actor_json(a, k % 4 >= 2) for a in subset]})
     # ---- a bash tool call that hits its timeout: its execution is over when the tool returns, nothing may happen afterwards
     late_cmd = {"tool": "bash", "args": {"command": "sleep 0.7; echo late >> @@WS@@/late.txt"}, "timeout_ms": 150}
     cases.append({"id": "timeout", "mode": "jitter", "seed": 1, "jitter_us": 0, "linger_ms": 1200,
